@@ -34,13 +34,14 @@ CheckDecode(e) ==
 \* (big: documents too large to re-encode here - 300 kB values, 20,000 children, depth 1,200 -
 \*  for which the recorded comparison built = decoded and the outcome are judged)
 CheckBuild(e) ==
-  IF e.big THEN e.decoded.out = "doc" /\ e.same /\ e.kindsok /\ e.encsame ELSE
+  IF e.big THEN e.decoded.out = "doc" /\ e.same /\ e.kindsok /\ e.encsame /\ e.again ELSE
   /\ IsForest(e.built)
   /\ e.bytes = Encode(e.bom, e.built)                  \* the documented line format
   /\ e.encsame
   /\ e.decoded.out = "doc"                             \* the decoder accepts the encoder's text
   /\ e.decoded.forest = e.built /\ e.decoded.bom = e.bom
   /\ e.kindsok
+  /\ e.again                                           \* written again after BOM flag / SetSex changes: the document as it is now
   /\ SameOutcome(e.decoded, Decode(e.bytes, [multi |-> FALSE, lenient |-> FALSE]))
 
 Check(e) == IF Mode = "decode" THEN CheckDecode(e) ELSE CheckBuild(e)
